@@ -96,15 +96,22 @@ func buildOverlay(cfg *Config) (map[string][]byte, map[string]string, error) {
 	if err != nil {
 		return nil, nil, err
 	}
-	hroot := filepath.Join(cfg.Verif, "harness")
-	err = filepath.Walk(hroot, func(p string, info os.FileInfo, err error) error {
-		if err != nil || info.IsDir() || !strings.HasSuffix(p, ".go") {
-			return nil
+	for _, hroot := range []string{filepath.Join(cfg.Verif, "harness"), filepath.Join(cfg.Verif, ".cache", "gen")} {
+		if _, serr := os.Stat(hroot); serr != nil {
+			continue
 		}
-		rel, _ := filepath.Rel(hroot, p)
-		return add(filepath.Join(cfg.Repo, rel), p)
-	})
-	return ov, files, err
+		err = filepath.Walk(hroot, func(p string, info os.FileInfo, err error) error {
+			if err != nil || info.IsDir() || !strings.HasSuffix(p, ".go") {
+				return nil
+			}
+			rel, _ := filepath.Rel(hroot, p)
+			return add(filepath.Join(cfg.Repo, rel), p)
+		})
+		if err != nil {
+			return nil, nil, err
+		}
+	}
+	return ov, files, nil
 }
 
 func load(cfg *Config) (*loaded, error) {
